@@ -84,6 +84,21 @@ def witness_of(rej):
     return w
 
 
+
+def unreached(ctx, sd, out, modules, allow=()):
+    """non-vacuity from `tlc -coverage 1`: expressions of the given modules that were never evaluated in the Next relation
+    (count 0), minus lines whose source text contains one of `allow`."""
+    import re
+    bad = []
+    for m in re.finditer(r"line (\d+), col (\d+) to line \d+, col \d+ of module (\w+): 0\s*$", out, re.M):
+        ln, mod = int(m.group(1)), m.group(3)
+        if mod not in modules:
+            continue
+        src = open(os.path.join(sd, mod + ".tla")).read().splitlines()[ln - 1]
+        if not any(a in src for a in allow):
+            bad.append("%s:%d %s" % (mod, ln, src.strip()))
+    return bad
+
 def execute(ctx, binary, scripts, tag):
     d = ctx.sub("run-" + tag)
     sp = os.path.join(d, "scripts.json")
@@ -159,6 +174,11 @@ def run(ctx):
         elif r.violated is None:
             raise Broken("broken variant %s of the model is not refuted (vacuous check): %r" % (bug, r))
     if T:
+        r = ctx.tlc(sd, "MC_C17", "MC_props.cfg", workers=4, timeout=900, extra=["-coverage", "1"], label="coverage (non-vacuity)", count=False)
+        bad = unreached(ctx, sd, r.out, ("RetryI", "RetryP"))
+        if not r.ok or bad:
+            raise Broken("vacuous exploration: unreached parts of the model: %s %r" % (bad[:5], r))
+        ctx.notes.append("coverage: every expression of RetryI/RetryP reached by the exhaustive run")
         for cfg in ("MC_wit_exhaust.cfg", "MC_wit_giveup.cfg"):
             r = ctx.tlc(sd, "MC_C17", cfg, workers=4, timeout=600, label="witness (expected violated)")
             if r.violated is None:
